@@ -24,10 +24,12 @@ V6s == {"::", "::1", "2001:db8::1", "fe80::1", "1:2:3:4:5:6:7:8", "2001:db8:0:1:
         "ff02::1:ff00:42", "fe80::1%3"}
 V6Socks == {"[" \o a \o "]:" \o Dec(p) : a \in V6s, p \in Ports}
 Hosts == {"localhost:104", "pacs.example.org:11112", "h:1", "a-b.c:65535", "dicom_server-01.lan:4242"}
+(* host:port strings that contain '@' themselves: at the start, in the middle, at the end, several *)
+AtHosts == {"dicom@pacs.archive.example.com:104", "@h:1", "h:104@", "a@b@c:11112", "@@:0", "u@[::1]:104"}
 
 Typed == {[addr |-> a, ty |-> t] : a \in V4Socks, t \in {"sa", "v4", "str"}}
          \cup {[addr |-> a, ty |-> t] : a \in V6Socks, t \in {"sa", "v6", "str"}}
-         \cup {[addr |-> a, ty |-> "str"] : a \in Hosts}
+         \cup {[addr |-> a, ty |-> "str"] : a \in Hosts \cup AtHosts}
 TitleOpts == {NoTitle} \cup {Title(t) : t \in Titles}
 
 VARIABLE c
